@@ -45,7 +45,8 @@ ListEdits(li, c, xs, new, addAt, delAt, repl) ==       \* addAt = 0: the contain
   [k \in 1..Len(repl) |-> Ed(li, c, "replace", repl[k][1], repl[k][2])]
   \o (IF delAt > 0 THEN <<Ed(li, c, "delete", delAt, [x |-> 0])>> ELSE <<>>)
   \o (IF addAt > 0 THEN <<Ed(li, c, "add", addAt, new)>> ELSE <<>>)
-KD(x) == [k |-> x.k, d |-> Bump(x.d)]
+\* (a Multipath TCP option keeps its subtype / flags octets: they decide its layout)
+KD(x) == [k |-> x.k, d |-> IF x.k = 30 /\ Len(x.d) >= 2 THEN SubSeq(x.d, 1, 2) \o Bump(SubSeq(x.d, 3, Len(x.d))) ELSE Bump(x.d)]
 TD(x) == [t |-> x.t, d |-> Bump(x.d)]
 Ends(xs, Vary(_)) == IF Len(xs) = 0 THEN <<>>
                   ELSE IF Len(xs) = 1 THEN <<<<1, Vary(xs[1])>>>>
